@@ -326,12 +326,7 @@ func mPoolPut(f *frame, st *State, ins *ssa.Call, args []Val) Val {
 }
 
 func (f *frame) lockOp(st *State, ins *ssa.Call, from, to string) Val {
-	cur := "none"
-	if g, ok := st.ghost["held"]; ok {
-		cur = g.(VOpaque).T
-	} else if f.ex.top != nil && f.ex.top.con != nil {
-		cur = f.ex.top.heldAtEntry()
-	}
+	cur := f.heldNow(st)
 	if f.ex.mode.Functional && ins != nil {
 		goal := "false"
 		if cur == from {
@@ -340,6 +335,14 @@ func (f *frame) lockOp(st *State, ins *ssa.Call, from, to string) Val {
 		f.ob(st, f.ord("lock", ins), ins.Pos(), goal, fmt.Sprintf("lock protocol: %s requires lock state %s, have %s", to, from, cur))
 	}
 	st.ghost["held"] = VOpaque{T: to}
+	if to != "none" {
+		// a new critical section begins
+		epoch := 0
+		if g, ok := st.ghost["lock_epoch"]; ok {
+			fmt.Sscan(g.(VOpaque).T, &epoch)
+		}
+		st.ghost["lock_epoch"] = VOpaque{T: fmt.Sprint(epoch + 1)}
+	}
 	return VTuple{}
 }
 
@@ -406,6 +409,9 @@ func init() {
 		out.R.fresh = true
 		err := ex.decls.fresh("readall_err", SInt)
 		st.assume(tLe("0", err))
+		// io.ReadAll: "A successful call returns err == nil, not err == EOF"
+		st.assume(tNe(err, errID(ex.extGlobal(st, "io", "EOF"))))
+		st.assume(tNe(err, errID(ex.extGlobal(st, "io", "ErrUnexpectedEOF"))))
 		f.readerConsume(st, a[0], out.Len, err)
 		return VTuple{[]Val{out, VIface{ID: err}}}
 	}
@@ -454,5 +460,27 @@ func init() {
 		r := f.ex.decls.fresh("fullRune", SBool)
 		st.assume(tEq(r, full))
 		return VBool{r}
+	}
+}
+
+// mime.ParseMediaType: the first result is a function of the input bytes (pmt); the algebra
+// the callers rely on (case/whitespace/parameter invariance) is the standard library's.
+func (ex *Exec) pmtOf(st *State, ms T, s VSlice) VSlice {
+	fm := ex.decls.fun("pmt_mem", []string{SBytes, SInt, SInt}, SBytes)
+	fl := ex.decls.fun("pmt_len", []string{SBytes, SInt, SInt}, SInt)
+	r := ex.newRegion("pmt", false, true)
+	st.mem[r] = []T{app(fm, ms, s.Off, s.Len)}
+	ln := app(fl, ms, s.Off, s.Len)
+	return VSlice{R: r, Elem: byteType, Off: "0", Len: ln, Cap: ln, Str: true}
+}
+
+func init() {
+	models["mime.ParseMediaType"] = func(f *frame, st *State, ins *ssa.Call, a []Val) Val {
+		ex := f.ex
+		s, ms := bytesOf(st, a[0])
+		r := ex.pmtOf(st, ms, s)
+		st.assume(tAnd(tLe("0", r.Len), tLe(r.Len, two48)))
+		tup := ins.Type().(*types.Tuple)
+		return VTuple{[]Val{r, VMap{ID: ex.decls.fresh("pmt_params", SInt), Typ: tup.At(1).Type(), Unknown: true}, VIface{ID: ex.decls.fresh("pmt_err", SInt)}}}
 	}
 }
